@@ -1,6 +1,7 @@
 package apprig
 
 import (
+	"bytes"
 	"crypto/ed25519"
 	"encoding/base64"
 	"fmt"
@@ -636,7 +637,10 @@ func GenHistory(r *hx.Rand, u *Universe, p GenParams) []*Op {
 		}
 	}
 	h := int64(0)
+	prevEnd := int64(0)
+	forkScripted := false
 	for b := 0; b < p.Blocks; b++ {
+		prevEnd = h
 		h++
 		if r.Chance(3) {
 			h += int64(r.Intn(3))
@@ -647,6 +651,19 @@ func GenHistory(r *hx.Rand, u *Universe, p GenParams) []*Op {
 			}
 		}
 		ops = append(ops, &Op{Kind: "begin", Height: h})
+		// the first block in which the check-in fork is active (the block after the last ended one has reached
+		// the fork height): a keyper that has checked in already does so again, with another validator key
+		if in.ForkOn && !forkScripted && prevEnd+1 >= in.ForkHeight && len(g.aim.App.Identities) > 0 && len(g.script) == 0 {
+			forkScripted = true
+			addrs := []common.Address{}
+			for a := range g.aim.App.Identities {
+				addrs = append(addrs, a)
+			}
+			sort.Slice(addrs, func(i, j int) bool { return bytes.Compare(addrs[i][:], addrs[j][:]) < 0 })
+			who := addrs[r.Intn(len(addrs))]
+			g.script = append(g.script, &TxSpec{Signer: g.signerOf(who), Chain: g.chain, Nonce: g.freshNonce(),
+				P: Payload{Kind: "ci", ValKey: valKey(50 + r.Intn(5)), EncKey: encKey(r.Intn(3))}})
+		}
 		if len(g.script) == 0 {
 			switch k := r.Intn(100); {
 			case k < 12:
